@@ -2,7 +2,8 @@
 from __future__ import annotations
 
 import ast
-from typing import Optional, Set
+import re
+from typing import Dict, Optional, Set
 
 from ..core import AnalysisError, call_name, dotted, stmt_key, walk_local
 from .. import fields as F
@@ -1085,3 +1086,102 @@ def aqt_single_qubit_shortcut_rule(ctx, rid: str):
         ok = abs(ov - 1) < 1e-9
         ctx.ob(rid, f'{ci.qual}._decompose_single_qubit_operation:H**{e}', ok, '' if ok else
                f'H**{e} is replaced by a fixed rotation list whose product is not H**{e} up to phase (overlap {ov:.4f}): the compiled circuit computes something else', ci.mod.rel, fn.lineno)
+
+
+# ---------------------------------------------------------------------------------------------------------------------
+# An execution of `_decompose_` that hands back no operation at all says "this gate is the identity".  For a class whose
+# constructor takes phase-like parameters that claim cannot be made without having looked at one of them.
+PHASE_LIKE = re.compile(r'(exponent|phase|shift|coefficient|angle|theta|phi|rads|turns)', re.I)
+
+
+def empty_decomposition_rule(ctx, rid, floor=1):
+    from ..flow import PathWalker
+    from .. import fields as F
+    repo = ctx.repo
+    ctx.rule(rid, 'an empty decomposition is an identity claim: on every execution path of a _decompose_ / _decompose_with_context_ that reaches an explicit `return` / `return []` without having yielded an operation, a class with '
+             'phase-like constructor parameters (exponent*, *phase*, *shift*, coefficient, angles) has tested at least one of the fields holding them - otherwise the gate decomposes '
+             'to nothing whatever phase it was built with (a phasor of an all-identity Pauli string is a global phase, not the identity)', floor=floor, style='MPT')
+    n = 0
+    for mod, ci, fn in repo.all_functions():
+        if ci is None or fn.name not in ('_decompose_', '_decompose_with_context_'):
+            continue
+        if mod.rel.endswith('_test.py') or '/testing/' in mod.rel or '/contrib/' in mod.rel:
+            continue
+        init = None
+        for c in repo.mro(ci):
+            if '__init__' in c.methods:
+                init = c.methods['__init__']
+                break
+        if init is None:
+            continue
+        p2f = F.init_param_to_field(repo, ci)
+        phase_fields = set()
+        for a in init.args.args + init.args.kwonlyargs:
+            if PHASE_LIKE.search(a.arg):
+                phase_fields |= {F.norm_field(repo, ci, f.lstrip('_')) for f in p2f.get(a.arg, ())} | set(p2f.get(a.arg, ()))
+        if not phase_fields:
+            continue
+        isgen = any(isinstance(x, (ast.Yield, ast.YieldFrom)) for x in ast.walk(fn))
+        # locals computed from fields: name -> fields read by its defining expressions
+        local_fields: Dict[str, set] = {}
+        for a in ast.walk(fn):
+            if isinstance(a, ast.Assign) and len(a.targets) == 1 and isinstance(a.targets[0], ast.Name):
+                local_fields.setdefault(a.targets[0].id, set()).update(_self_fields(repo, ci, a.value))
+
+        def fields_of(expr):
+            got = set(_self_fields(repo, ci, expr))
+            for x in ast.walk(expr):
+                if isinstance(x, ast.Name):
+                    got |= local_fields.get(x.id, set())
+            return got
+
+        def transfer(node, st):
+            emitted, seen = st
+            if any(isinstance(x, (ast.Yield, ast.YieldFrom)) for x in ast.walk(node)):
+                emitted = True
+            return [(emitted, seen)]
+
+        def branch(test, pol, st):
+            emitted, seen = st
+            return [(emitted, seen | frozenset(fields_of(test)))]
+
+        w = PathWalker(transfer, branch)
+        try:
+            exits = w.run(fn, (False, frozenset()))
+        except RuntimeError as e:
+            ctx.unres(rid, f'{ci.qual}.{fn.name}', str(e), mod.rel, fn.lineno)
+            continue
+        for kind, (emitted, seen), node in exits:
+            if kind == 'raise' or emitted:
+                continue
+            if kind == 'return':
+                v = node.value
+                if v is not None and not (isinstance(v, (ast.List, ast.Tuple)) and not v.elts):
+                    continue  # hands back something (operations, NotImplemented, None = "no decomposition")
+                if v is None and not isgen:
+                    continue  # `return` of a plain function: None, i.e. no decomposition known
+            else:
+                continue  # falling off the end: usually a loop over zero qubits / terms, which is no claim about the parameters
+            n += 1
+            ok = bool(seen & phase_fields)
+            ctx.ob(rid, f'{ci.qual}.{fn.name}:empty-exit@{_ordinal(fn, node)}', ok, '' if ok else
+                   f'this path hands back no operation after testing only {sorted(seen) or "nothing"}; none of the phase-carrying fields {sorted(phase_fields)} was consulted', mod.rel,
+                   getattr(node, 'lineno', fn.lineno))
+    if n == 0:
+        raise AnalysisError(f'{rid}: no empty exit of a decomposition found in a class with phase-like parameters')
+
+
+def _self_fields(repo, ci, expr):
+    from .. import fields as F
+    out = set()
+    for x in ast.walk(expr):
+        if isinstance(x, ast.Attribute) and isinstance(x.value, ast.Name) and x.value.id == 'self':
+            out.add(F.norm_field(repo, ci, x.attr.lstrip('_')))
+            out.add(x.attr)
+    return out
+
+
+def _ordinal(fn, node):
+    rets = [x for x in ast.walk(fn) if isinstance(x, ast.Return)]
+    rets.sort(key=lambda r: (r.lineno, r.col_offset))
+    return rets.index(node) if node in rets else 'end'
